@@ -122,9 +122,13 @@ def gen_steps(rng, tok, lengths=(1, 1, 2, 2, 3, 4, 6), p_raise=0.0):
 FIELDS = ("setup", "body", "teardown")
 
 
-def prog(pre=(), setup=(), body=(), teardown=(), cleanups=()):
-    return {"k": "test", "pre": [list(d) for d in pre], "setup": list(setup), "body": list(body),
-            "teardown": list(teardown), "cleanups": [list(c) for c in cleanups]}
+def prog(pre=(), setup=(), body=(), teardown=(), cleanups=(), setup_up=0, teardown_up=None):
+    """setup_up / teardown_up: how many statements of setUp / tearDown stand before super().setUp() /
+    super().tearDown() (default: setUp upcalls first, tearDown last)"""
+    return {"k": "test", "pre": [list(d) for d in pre], "setup": list(setup), "setup_up": setup_up,
+            "body": list(body), "teardown": list(teardown),
+            "teardown_up": len(teardown) if teardown_up is None else teardown_up,
+            "cleanups": [list(c) for c in cleanups]}
 
 
 def raises(st):
@@ -163,6 +167,13 @@ def gen_test(rng, tier):
         prog(pre=[["a", 1], ["a-1", 2], ["a-2", 3]], body=[[F, [["a", 4]], False]]),
         prog(pre=[["a", 1], ["a-1", 2], ["a-2", 3]], body=[[A, [["a", 4], ["a-1", 5]], False]]),
         prog(body=[[F, None, False], [E, [["traceback", 1]], False]]),
+        # a failed expectation before setUp upcalls the base setUp / after tearDown has upcalled the base tearDown
+        prog(setup=[[E, [["a", 1]], False]], setup_up=1),
+        prog(setup=[[E, [], False], [A, None, False]], setup_up=2, body=[[A, None, False]]),
+        prog(pre=[["a", 1]], setup=[[E, [["a", 2]], False], [E, None, False]], setup_up=1),
+        prog(teardown=[[E, [["a", 1]], False]], teardown_up=0),
+        prog(setup=[[A, None, False]], setup_up=1, teardown=[[A, None, False], [E, [], False]], teardown_up=1),
+        prog(setup=[[3, 0, False]], setup_up=1, cleanups=[[[E, [["a", 1]], False]]]),
         # a failed expectation in setUp, setUp then skips / a cleanup after a failed setUp has a failed expectation
         prog(setup=[[E, [["a", 1]], False], [3, 0, False]]),
         prog(setup=[[3, 2, False]], cleanups=[[[E, [["a", 1]], False]]]),
@@ -206,6 +217,14 @@ def gen_test(rng, tier):
                         else:
                             c[place].append(list(st))
                     out.append(c)
+                    # the same history with the upcalls at the other end of setUp / tearDown, and in the middle
+                    ups = [(len(c["setup"]), 0)]
+                    if len(c["setup"]) == 2 or len(c["teardown"]) == 2:
+                        ups.append((1, 1))
+                    for su, tu in ups:
+                        c2 = dict(c, setup_up=min(su, len(c["setup"])), teardown_up=min(tu, len(c["teardown"])))
+                        if c2 != c:
+                            out.append(c2)
     for _ in range(700 if tier == "quick" else 10000):
         tok = [1]
         pre = []
@@ -216,10 +235,12 @@ def gen_test(rng, tier):
         pr = 0.0 if plain else 0.35
         c = prog(pre=pre, body=gen_steps(rng, tok, p_raise=pr))
         if not plain:
-            if rng.random() < 0.3:
+            if rng.random() < 0.4:
                 c["setup"] = gen_steps(rng, tok, (0, 1, 1, 2), p_raise=0.25)
+                c["setup_up"] = rng.randint(0, len(c["setup"]))
             if rng.random() < 0.5:
                 c["teardown"] = gen_steps(rng, tok, (0, 1, 1, 2), p_raise=0.4)
+            c["teardown_up"] = rng.randint(0, len(c["teardown"]))
             for _ in range(rng.choice([0, 0, 1, 1, 2, 3])):
                 c["cleanups"].append(gen_steps(rng, tok, (0, 1, 1, 2), p_raise=0.4))
         out.append(c)
@@ -228,6 +249,42 @@ def gen_test(rng, tier):
 
 def generate(rng, tier):
     return gen_desc(rng, tier) + gen_test(rng, tier) + gen_repr(rng, tier)
+
+
+def clamp(c):
+    return dict(c, setup_up=min(c.get("setup_up", 0), len(c["setup"])),
+                teardown_up=min(c.get("teardown_up", len(c["teardown"])), len(c["teardown"])))
+
+
+def shrink_test(case):
+    if case.get("setup_up", 0) != 0:
+        yield dict(case, setup_up=0)
+    if case.get("teardown_up", len(case["teardown"])) != len(case["teardown"]):
+        yield dict(case, teardown_up=len(case["teardown"]))
+
+    def variants(st):
+        for i in range(len(st)):
+            yield st[:i] + st[i + 1:]
+        for i, (kind, mis, flag) in enumerate(st):
+            if kind != 3 and mis:
+                for j in range(len(mis)):
+                    yield st[:i] + [[kind, mis[:j] + mis[j + 1:], flag]] + st[i + 1:]
+            if flag:
+                yield st[:i] + [[kind, mis, False]] + st[i + 1:]
+    cl = case["cleanups"]
+    for i in range(len(cl)):
+        yield dict(case, cleanups=cl[:i] + cl[i + 1:])
+    for f in FIELDS:
+        if case[f]:
+            yield dict(case, **{f: []})
+    for f in FIELDS:
+        for v in variants(case[f]):
+            yield dict(case, **{f: v})
+    for i in range(len(cl)):
+        for v in variants(cl[i]):
+            yield dict(case, cleanups=cl[:i] + [v] + cl[i + 1:])
+    for i in range(len(case["pre"])):
+        yield dict(case, pre=case["pre"][:i] + case["pre"][i + 1:])
 
 
 def shrink(case):
@@ -240,29 +297,8 @@ def shrink(case):
             if c not in (39, 97):
                 yield dict(case, s=s[:i] + [97] + s[i + 1:])
     elif k == "test":
-        def variants(st):
-            for i in range(len(st)):
-                yield st[:i] + st[i + 1:]
-            for i, (kind, mis, flag) in enumerate(st):
-                if kind != 3 and mis:
-                    for j in range(len(mis)):
-                        yield st[:i] + [[kind, mis[:j] + mis[j + 1:], flag]] + st[i + 1:]
-                if flag:
-                    yield st[:i] + [[kind, mis, False]] + st[i + 1:]
-        cl = case["cleanups"]
-        for i in range(len(cl)):
-            yield dict(case, cleanups=cl[:i] + cl[i + 1:])
-        for f in FIELDS:
-            if case[f]:
-                yield dict(case, **{f: []})
-        for f in FIELDS:
-            for v in variants(case[f]):
-                yield dict(case, **{f: v})
-        for i in range(len(cl)):
-            for v in variants(cl[i]):
-                yield dict(case, cleanups=cl[:i] + [v] + cl[i + 1:])
-        for i in range(len(case["pre"])):
-            yield dict(case, pre=case["pre"][:i] + case["pre"][i + 1:])
+        for c in shrink_test(case):
+            yield clamp(c)
     elif k == "dexpr":
         from . import gen_c06 as g
         for c in g.shrink({"m": case["m"], "v": case["v"], "leafdefs": case.get("leafdefs", ())}):
@@ -274,7 +310,8 @@ def shrink(case):
 def distribution(cases):
     d = {"kind": {}, "repr_len": {}, "repr_bytes": 0, "repr_ml": {}, "desc_names": 0, "test_steps": {},
          "test_raise": {}, "test_failed_expectation_and_nonfailure_exception": 0,
-         "test_failed_expectation_and_setup_raises": 0,
+         "test_failed_expectation_and_setup_raises": 0, "test_statements_before_setup_upcall": 0,
+         "test_statements_after_teardown_upcall": 0,
          "test_with_setup_teardown_or_cleanups": 0, "dexpr_unorderable_dict_keys": 0}
     names = set()
     for c in cases:
@@ -307,6 +344,8 @@ def distribution(cases):
                         d["test_failed_expectation_and_nonfailure_exception"] += 1
                         break
             d["test_failed_expectation_and_setup_raises"] += in_f21(c)
+            d["test_statements_before_setup_upcall"] += c.get("setup_up", 0) > 0
+            d["test_statements_after_teardown_upcall"] += c.get("teardown_up", len(c["teardown"])) < len(c["teardown"])
             if c["teardown"] or c["cleanups"] or c["setup"]:
                 d["test_with_setup_teardown_or_cleanups"] += 1
     d["desc_names"] = len(names)
